@@ -89,6 +89,9 @@ def cases(tier, seed):
     # superslabs whose original particle files are EMPTY while their halos have merged-in particles (no trailing records)
     for r in ([[6, 6], [2]], [[6], [6, 7]], [[7, 6, 6]], [[2, 1], [6]]):
         yield dict(kind='rich', alpha=6, slabs=r, trailing=False)
+    # more halos than 2^16 in one superslab (index widths), thorough only
+    if tier != 'quick':
+        yield dict(kind='core', alpha=6, slabs=[[1, 2, 4] * 22000, [2, 1]])
     # halo light-cone layout: all sequences of <=3 halos over (count, gap) variants x all row masks x subsample options
     lcv = [(0, 0), (1, 0), (2, 1), (1, 1)] if tier == 'quick' else [(0, 0), (1, 0), (2, 1), (1, 1), (3, 0), (0, 1)]
     for n in range(0, 4):
